@@ -6,8 +6,8 @@ import MuscleModel.Reflector.MirrorProofs22
 * `InsertOrderedChild` = counter update (no payload changes), `PutChild` of a leaf with the created-notification
   (`createStep`), index entry + `NodeIndexChanged` (index Messages are no data lines): `syncAll_insertOrderedChild`;
 * PR_COMMAND_INSERTORDEREDDATA (`syncFor_insertOrdered`), SETDATA with SETDATANODE_FLAG_ADDTOINDEX
-  (`syncFor_setIndexed`), PR_COMMAND_REORDERDATA (`quiet_reorder`) of ANOTHER session (the sender's own `indexingPresent`
-  flag changes, which is part of its `core`).
+  (`syncFor_setIndexed`), PR_COMMAND_REORDERDATA (`quiet_reorder`) of ANY session (the sender's own `indexingPresent` flag
+  changes; it is not part of `vcore`, so this is an empty step for the sender too).
 * `InsDepthOK`: the nodes the insert traversal visits lie above the depth the model sees (no `MUSCLE_MAX_NODE_DEPTH` check
   in the model).
 -/
@@ -83,14 +83,26 @@ theorem sameOwn_updSess_flag {sv : Server} {a : Nat} {own : List Bytes} (h : Sam
   obtain ⟨sa, hsa, hn⟩ := h
   exact ⟨_, sess?_updSess_same sv a _ (by intro _; rfl) hsa, hn⟩
 
-theorem syncFor_updSess_flag {sid a : Nat} (ha : a ≠ sid) (sv : Server) :
-    SyncFor sid sv (sv.updSess a (fun s => { s with indexingPresent := true })) :=
-  (quiet_updSess_other ha sv (fun s => { s with indexingPresent := true }) (fun _ => rfl)).syncFor
+/-- the sender's indexing flag: an empty step for everybody, the sender included (the flag is not part of `vcore`) -/
+theorem quiet_updSess_flag (sid a : Nat) (sv : Server) :
+    Quiet sid sv (sv.updSess a (fun s => { s with indexingPresent := true })) := by
+  by_cases ha : a = sid
+  · subst ha
+    refine ⟨?_, fun _ => rfl⟩
+    intro s hs
+    refine ⟨{ s with indexingPresent := true }, [], ?_, rfl, by simp [dataLines], fun _ => rfl⟩
+    refine sess?_updSess_same sv a _ ?_ hs
+    intro _; rfl
+  · exact quiet_updSess_other ha sv (fun s => { s with indexingPresent := true }) (fun _ => rfl)
 
-/-! ## PR_COMMAND_INSERTORDEREDDATA of another session -/
+theorem syncFor_updSess_flag (sid a : Nat) (sv : Server) :
+    SyncFor sid sv (sv.updSess a (fun s => { s with indexingPresent := true })) :=
+  (quiet_updSess_flag sid a sv).syncFor
+
+/-! ## PR_COMMAND_INSERTORDEREDDATA -/
 
 /-- one insert step of the handler (generated name), on whatever the current state is -/
-theorem syncFor_insertStep {sid a : Nat} (ha : a ≠ sid) {sv : Server} (h : Good sv) {own : List Bytes}
+theorem syncFor_insertStep {sid a : Nat} {sv : Server} (h : Good sv) {own : List Bytes}
     (hown : SameOwn a own sv) (v : List Bytes) (hpre : own <+: v) (hlen : v.length < fuelDepth) (x : Nat) (before : Bytes) :
     SyncFor sid sv ((insertOrderedChild sv a v (some x) before [] true).updSess a (fun s => { s with indexingPresent := true })) ∧
     Good ((insertOrderedChild sv a v (some x) before [] true).updSess a (fun s => { s with indexingPresent := true })) ∧
@@ -99,19 +111,19 @@ theorem syncFor_insertStep {sid a : Nat} (ha : a ≠ sid) {sv : Server} (h : Goo
   | none =>
     have : insertOrderedChild sv a v (some x) before [] true = sv := by simp [insertOrderedChild, hp]
     rw [this]
-    exact ⟨syncFor_updSess_flag ha sv, good_updSess_flag h a, sameOwn_updSess_flag hown⟩
+    exact ⟨syncFor_updSess_flag sid a sv, good_updSess_flag h a, sameOwn_updSess_flag hown⟩
   | some p =>
     have hk : findKid (ordPair p []).1 p.kids = none := ordPair_fresh p rfl
     have hnm : cSlash ∉ (ordPair p []).1 := by
       unfold ordPair; simp only [List.isEmpty_nil, if_true]; exact noSlash_autoName _ _ _
     obtain ⟨s1, g1, o1⟩ := syncAll_insertOrderedChild h hown hpre hp (some x) before [] hk hnm hlen
-    exact ⟨(s1.for sid).trans (syncFor_updSess_flag ha _), good_updSess_flag g1 a, sameOwn_updSess_flag o1⟩
+    exact ⟨(s1.for sid).trans (syncFor_updSess_flag sid a _), good_updSess_flag g1 a, sameOwn_updSess_flag o1⟩
 
 /-- the nodes the insert traversal visits lie above the depth the model sees -/
 def InsDepthOK (sv : Server) (a : Nat) (key : Bytes) : Prop :=
   ∀ sa, sv.sess? a = some sa → ∀ v ∈ travSession sv sa (pmOfKeys [(key, none)] none) cbContinue, v.length < fuelDepth
 
-theorem syncFor_insertOrdered {sid a : Nat} (ha : a ≠ sid) {sv : Server} (h : Good sv) (key before : Bytes) (vals : List Nat)
+theorem syncFor_insertOrdered {sid a : Nat} {sv : Server} (h : Good sv) (key before : Bytes) (vals : List Nat)
     (hd : InsDepthOK sv a key) :
     SyncFor sid sv (insertOrdered sv a key before vals) ∧ Good (insertOrdered sv a key before vals) := by
   unfold insertOrdered
@@ -137,7 +149,7 @@ theorem syncFor_insertOrdered {sid a : Nat} (ha : a ≠ sid) {sv : Server} (h : 
       | cons x r ih =>
         intro X g o
         simp only [List.foldl_cons]
-        obtain ⟨s1, g1, o1⟩ := syncFor_insertStep ha g o v hpre hlen x before
+        obtain ⟨s1, g1, o1⟩ := syncFor_insertStep (sid := sid) g o v hpre hlen x before
         obtain ⟨s2, g2, o2⟩ := ih _ g1 o1
         exact ⟨s1.trans s2, g2, o2⟩
     have outer : ∀ (V : List (List Bytes)), (∀ v ∈ V, sessNames sa <+: v ∧ v.length < fuelDepth) → ∀ (X : Server), Good X →
@@ -158,7 +170,7 @@ theorem syncFor_insertOrdered {sid a : Nat} (ha : a ≠ sid) {sv : Server} (h : 
         exact ⟨s1.trans s2, g2⟩
     exact outer V hV sv h ⟨sa, hsa, rfl⟩
 
-/-! ## SETDATA with the index flag, of another session -/
+/-! ## SETDATA with the index flag -/
 
 theorem setDataClausesI_step (a : Nat) (d : Option Nat) {sv : Server} {cur : List Bytes} {node : Node}
     (hp : getNode sv cur = some node) (cl : Bytes) (rest : List Bytes) :
@@ -185,7 +197,7 @@ theorem setDataClausesI_step (a : Nat) (d : Option Nat) {sv : Server} {cur : Lis
     rw [setDataClauses]
     simp only [hp, hk, hre, Bool.false_and, Bool.false_eq_true, if_false]
 
-theorem syncFor_setDataClausesI {sid a : Nat} (ha : a ≠ sid) (d : Option Nat) (own : List Bytes) :
+theorem syncFor_setDataClausesI {sid a : Nat} (d : Option Nat) (own : List Bytes) :
     ∀ (cls : List Bytes) (sv : Server) (cur : List Bytes), Good sv → SameOwn a own sv → own <+: cur →
       (∀ c ∈ cls, cSlash ∉ c) → cur.length + cls.length ≤ fuelDepth →
       SyncFor sid sv (setDataClauses a d true sv cur cls) ∧ Good (setDataClauses a d true sv cur cls) := by
@@ -220,11 +232,11 @@ theorem syncFor_setDataClausesI {sid a : Nat} (ha : a ≠ sid) (d : Option Nat) 
             have hn' : cSlash ∉ (ordPair node cl).1 := by
               unfold ordPair; rw [if_pos he]; exact noSlash_autoName _ _ _
             obtain ⟨s1, g1, _⟩ := syncAll_insertOrderedChild h ho hpre hp d [] cl hk' hn' hlen1
-            exact ⟨(s1.for sid).trans (syncFor_updSess_flag ha _), good_updSess_flag g1 a⟩
+            exact ⟨(s1.for sid).trans (syncFor_updSess_flag sid a _), good_updSess_flag g1 a⟩
           · have hop : (ordPair node cl).1 = cl := by unfold ordPair; rw [if_neg he]
             obtain ⟨s1, g1, _⟩ := syncAll_insertOrderedChild h ho hpre hp d [] cl (by rw [hop]; exact hk)
               (by rw [hop]; exact hcl) hlen1
-            exact ⟨(s1.for sid).trans (syncFor_updSess_flag ha _), good_updSess_flag g1 a⟩
+            exact ⟨(s1.for sid).trans (syncFor_updSess_flag sid a _), good_updSess_flag g1 a⟩
         · rw [e2 hk hr]
           have s1 := syncAll_createStep h ho hpre hp cl hk hlen1 hcl none
           obtain ⟨s2, g2⟩ := ih (createStep sv a cur cl none) (cur ++ [cl]) (good_createStep h a cur cl none hcl)
@@ -236,7 +248,7 @@ theorem syncFor_setDataClausesI {sid a : Nat} (ha : a ≠ sid) (d : Option Nat) 
         · rw [e4 child hk hr]
           exact ih sv (cur ++ [cl]) h ho hpre2 hrs hlen2
 
-theorem syncFor_setIndexed {sid a : Nat} (ha : a ≠ sid) {sv : Server} (h : Good sv) (path : Bytes) (hok : SetOK path)
+theorem syncFor_setIndexed {sid a : Nat} {sv : Server} (h : Good sv) (path : Bytes) (hok : SetOK path)
     (x : Nat) : SyncFor sid sv (runCmd sv a (.set path x true)) ∧ Good (runCmd sv a (.set path x true)) := by
   show SyncFor sid sv (setDataNode sv a path (some x) true) ∧ Good (setDataNode sv a path (some x) true)
   unfold setDataNode
@@ -250,10 +262,10 @@ theorem syncFor_setIndexed {sid a : Nat} (ha : a ≠ sid) {sv : Server} (h : Goo
       simp only []
       split
       · exact ⟨SyncFor.refl sid sv, h⟩
-      · exact syncFor_setDataClausesI ha (some x) (sessNames sa) (pathClauses (c :: r)) sv (sessNames sa) h ⟨sa, hsa, rfl⟩
+      · exact syncFor_setDataClausesI (sid := sid) (some x) (sessNames sa) (pathClauses (c :: r)) sv (sessNames sa) h ⟨sa, hsa, rfl⟩
           (List.prefix_refl _) (noSlash_pathClauses _) (by unfold SetOK at hok; simpa [sessNames] using hok)
 
-/-! ## PR_COMMAND_REORDERDATA of another session -/
+/-! ## PR_COMMAND_REORDERDATA -/
 
 /-- sessions keep what the data pipe reads and the tree keeps every payload -/
 def Kept (sv sv' : Server) : Prop :=
@@ -290,7 +302,7 @@ theorem quiet_of_dataKept {sid : Nat} {sv sv' : Server} (hd : DataKept sv sv')
     (hdata : ∀ w, (getNode sv' w).map Node.data = (getNode sv w).map Node.data) : Quiet sid sv sv' :=
   ⟨pipeStep_of_dataKept hd sid, hdata⟩
 
-theorem quiet_reorder {sid a : Nat} (ha : a ≠ sid) (sv : Server) (key before : Bytes) :
+theorem quiet_reorder (sid a : Nat) (sv : Server) (key before : Bytes) :
     Quiet sid sv (Reflector.reorder sv a key before) := by
   have hcore : Quiet sid sv (reorderCore sv a key before) := by
     unfold reorderCore
@@ -308,6 +320,6 @@ theorem quiet_reorder {sid a : Nat} (ha : a ≠ sid) (sv : Server) (key before :
   repeat' split
   all_goals first
     | exact hcore
-    | exact hcore.trans (quiet_updSess_other ha _ _ (fun _ => rfl))
+    | exact hcore.trans (quiet_updSess_flag sid a _)
 
 end Muscle.Reflector
